@@ -159,6 +159,12 @@ def run_case(c, ns):
         if op == "pack":
             p = build(c["value"], ns)
             return {"ok": p.pack().hex()}
+        if op == "pack_cursor":
+            # where the output cursor stands after serializing every field (the begin of whatever would come next)
+            from bisturi.fragments import Fragments
+            p = build(c["value"], ns)
+            fr = p.pack_impl(Fragments(), root=p)
+            return {"cursor": fr.current_offset}
         if op == "roundtrip":
             global INTERVALS
             p = cls(_initialize_fields=False)
